@@ -5,6 +5,7 @@ import (
 	"database/sql"
 	"encoding/binary"
 	"fmt"
+	"hash/crc32"
 	"io"
 	"os"
 	"path/filepath"
@@ -567,7 +568,9 @@ func genDB3(t *rapid.T) DB3Case {
 				d.Deps = append(d.Deps, r)
 			} else {
 				// the names carry the definition's number, so that the text of one definition is never the text of another
-				d.Lines = append(d.Lines, rapid.SampledFrom([]string{"uint8 f%s", "string f%s", "float64[] f%s", "string<=10 f%s", "# comment %s", "int32 K%s=5", "bool[2] f%s"}).Draw(t, "line"))
+				d.Lines = append(d.Lines, rapid.SampledFrom([]string{"uint8 f%s", "string f%s", "float64[] f%s", "string<=10 f%s", "# comment %s", "int32 K%s=5", "bool[2] f%s",
+					// every built-in field type of the ROS 2 interface definition language
+					"byte f%s", "char f%s", "float32 f%s", "int8 f%s", "int16[] f%s", "uint16 f%s", "uint32 f%s", "int64 f%s", "uint64[<=4] f%s", "wstring f%s", "wstring<=7 f%s", "wstring[] f%s"}).Draw(t, "line"))
 				d.Lines[len(d.Lines)-1] = fmt.Sprintf(d.Lines[len(d.Lines)-1], fmt.Sprintf("%d_of_def%d", f, i))
 			}
 		}
@@ -918,6 +921,14 @@ func handleDB3(req isolate.Req) isolate.Resp {
 	}
 	defer os.RemoveAll(dir)
 	p := filepath.Join(dir, "hostile.db3")
+	searchDir := dir
+	if req.Opts&1 != 0 && len(req.Input) >= 4 {
+		n := int(binary.LittleEndian.Uint32(req.Input))
+		if 4+n <= len(req.Input) {
+			searchDir = string(req.Input[4 : 4+n])
+			req.Input = req.Input[4+n:]
+		}
+	}
 	if err := os.WriteFile(p, req.Input, 0o644); err != nil {
 		return isolate.Resp{Text: "harness: " + err.Error()}
 	}
@@ -926,11 +937,113 @@ func handleDB3(req isolate.Req) isolate.Resp {
 		return isolate.Resp{Text: err.Error()}
 	}
 	defer db.Close()
+	if req.Opts&1 != 0 {
+		// damaged-database mode: the search directory comes with the request, and the answer says how many
+		// messages the output holds (Progress = 1 + count) and a checksum of their payloads (Flags)
+		var out bytes.Buffer
+		err = ros.DB3ToMCAP(&out, db, &mcap.WriterOptions{Chunked: true, ChunkSize: 4096}, []string{searchDir})
+		if err != nil {
+			return isolate.Resp{Text: err.Error()}
+		}
+		lx, err := mcap.NewLexer(bytes.NewReader(out.Bytes()))
+		if err != nil {
+			return isolate.Resp{Text: "harness: output unreadable: " + err.Error()}
+		}
+		n, sum := uint32(0), uint32(0)
+		for {
+			tt, rec, err := lx.Next(nil)
+			if err != nil {
+				break
+			}
+			if tt == mcap.TokenMessage {
+				n++
+				sum = sum*31 + crc32.ChecksumIEEE(rec[22:])
+			}
+		}
+		return isolate.Resp{Progress: 1 + n, Flags: sum}
+	}
 	err = ros.DB3ToMCAP(io.Discard, db, &mcap.WriterOptions{Chunked: true, ChunkSize: 1024}, []string{dir})
 	if err != nil {
 		return isolate.Resp{Text: err.Error()}
 	}
 	return isolate.Resp{Progress: 1}
+}
+
+// ---- a database that is damaged, not garbage: one page of a multi-page file overwritten. sqlite notices
+// such damage only when a query reaches the page, i.e. in the middle of the conversion.
+type DB3Damaged struct {
+	NMsgs   int
+	Payload int
+	Page    int    // which 4096-byte page is overwritten (modulo the number of pages, never page 0's header)
+	Fill    byte   // overwritten with this byte ...
+	Noise   uint64 // ... or, when non-zero, with noise from this seed
+}
+
+func genDB3Damaged(t *rapid.T) DB3Damaged {
+	return DB3Damaged{NMsgs: rapid.IntRange(300, 3000).Draw(t, "n-msgs"), Payload: rapid.IntRange(10, 300).Draw(t, "payload"), Page: rapid.IntRange(1, 500).Draw(t, "page"),
+		Fill: rapid.SampledFrom([]byte{0, 0xff, 0x0d, 0x05}).Draw(t, "fill"), Noise: rapid.Uint64Range(0, 3).Draw(t, "noise")}
+}
+
+func checkDB3Damaged(h DB3Damaged, st *stats.Collector) error {
+	dir, err := os.MkdirTemp(scratchDir(), "db3d-")
+	if err != nil {
+		return pk.Failf("harness", "%v", err)
+	}
+	defer os.RemoveAll(dir)
+	c := DB3Case{Dirs: 1, Defs: []MsgDef{{Pkg: "pkg_a", Name: "Blob", Lines: []string{"uint8[] data"}}}, Topics: []DBTopic{{ID: 1, Name: "/blob", Type: "pkg_a/msg/Blob", Format: "cdr"}}}
+	for i := 0; i < h.NMsgs; i++ {
+		c.Msgs = append(c.Msgs, DBMsg{Topic: 0, TS: int64(i), Data: wl.Fill(h.Payload, uint64(i)+1)})
+	}
+	db, dirs, err := buildDB3(&c, dir)
+	if err != nil {
+		return pk.Failf("harness", "cannot build the database: %v", err)
+	}
+	db.Close()
+	raw, err := os.ReadFile(filepath.Join(dir, "bag.db3"))
+	if err != nil {
+		return pk.Failf("harness", "%v", err)
+	}
+	frame := func(b []byte) []byte {
+		in := binary.LittleEndian.AppendUint32(nil, uint32(len(dirs[0])))
+		in = append(in, dirs[0]...)
+		return append(in, b...)
+	}
+	ref := worker().Call(isolate.Req{Entry: entryDB3, Opts: 1, Input: frame(raw)}, 60*time.Second, 600*time.Second)
+	if ref.Text != "" || ref.Died || ref.Hang || ref.Progress != uint32(1+h.NMsgs) {
+		return pk.Failf("harness", "the intact %d-message database does not convert to %d messages: %+v", h.NMsgs, h.NMsgs, ref)
+	}
+	pages := len(raw) / 4096
+	if pages < 3 {
+		return pk.Failf("harness", "database of %d bytes is too small to damage a page", len(raw))
+	}
+	pg := 1 + h.Page%(pages-1)
+	bad := append([]byte{}, raw...)
+	fill := bytes.Repeat([]byte{h.Fill}, 4096)
+	if h.Noise != 0 {
+		fill = wl.Fill(4096, h.Noise)
+	}
+	copy(bad[pg*4096:], fill)
+	o := worker().Call(isolate.Req{Entry: entryDB3, Opts: 1, Input: frame(bad)}, 60*time.Second, 600*time.Second)
+	label := fmt.Sprintf("DB3ToMCAP on a %d-message, %d-page database with page %d overwritten", h.NMsgs, pages, pg)
+	if err := judge(label, o); err != nil {
+		return err
+	}
+	if o.Text == "" && (o.Progress != ref.Progress || o.Flags != ref.Flags) {
+		return pk.Failf("damaged-accepted", "%s returned no error and an MCAP file with %d of the %d stored messages (or altered payloads)", label, int(o.Progress)-1, h.NMsgs)
+	}
+	outcome := "outcome=error"
+	if o.Text == "" {
+		outcome = "outcome=complete-output(damage-not-in-a-page-the-conversion-reads)"
+	}
+	st.Case(wl.Hash(h), true, 2, "damaged-db3", outcome)
+	if st.WantSample() {
+		st.Sample(map[string]any{"case": h, "pages": pages, "result": o.Text})
+	}
+	return nil
+}
+
+func TestC18DB3Damaged(t *testing.T) {
+	pk.Run(t, "C18dd", genDB3Damaged, checkDB3Damaged)
 }
 
 type DB3Hostile struct {
